@@ -693,3 +693,167 @@ end certificate
 
 end algebra
 end Piqp.C01
+
+/-! ## the identity preconditioner
+
+`IdentityPreconditioner` is the other preconditioner type the templates accept. In exact arithmetic it is the Ruiz
+preconditioner with all scalings equal to 1: `realOps_asRuiz` shows that every numeric operation of the loop coincides, so
+the certificate theorem transfers. -/
+
+namespace Piqp.C01
+section identity
+open Finset Piqp.C13 Piqp.C15
+variable {K : Type} [Field K] [LinearOrder K]
+variable {n p m : Nat}
+
+/-- the preconditioner state that scales nothing -/
+def unitPre (d : Data K n p m) : Precond K n p m :=
+  { nlb := d.lb.cnt, nub := d.ub.cnt, c := 1, dx := Vec.const n 1, dy := Vec.const p 1, dz := Vec.const m 1,
+    dlb := Vec.const n 1, dub := Vec.const n 1, cInv := 1, dxInv := Vec.const n 1, dyInv := Vec.const p 1,
+    dzInv := Vec.const m 1, dlbInv := Vec.const n 1, dubInv := Vec.const n 1 }
+
+/-- the same environment, seen as a Ruiz-preconditioned one whose scalings are all 1 -/
+def asRuiz (e : Env K n p m) : Env K n p m := { e with pk := .denseRuiz, pre := unitPre e.data }
+
+variable (d : Data K n p m) (pre : Precond K n p m)
+
+theorem u_cost (v : K) : (unitPre d).unscaleCost .denseRuiz v = pre.unscaleCost .identity v := by
+  simp [Precond.unscaleCost, unitPre]
+theorem u_dualRes (v : Vec K n) : (unitPre d).unscaleDualRes .denseRuiz v = pre.unscaleDualRes .identity v := by
+  simp only [Precond.unscaleDualRes, unitPre, if_true, reduceCtorEq, if_false]
+  apply Vector.ext; intro i hi
+  simp [Vec.const]
+theorem u_primal (v : Vec K n) : (unitPre d).unscalePrimal .denseRuiz v = pre.unscalePrimal .identity v := by
+  simp only [Precond.unscalePrimal, unitPre, if_true, reduceCtorEq, if_false]
+  apply Vector.ext; intro i hi
+  simp [Vec.const]
+theorem u_resEq (v : Vec K p) : (unitPre d).unscalePrimalResEq .denseRuiz v = pre.unscalePrimalResEq .identity v := by
+  simp only [Precond.unscalePrimalResEq, unitPre, if_true, reduceCtorEq, if_false]
+  apply Vector.ext; intro i hi
+  simp [Vec.const]
+theorem u_resIneq (v : Vec K m) : (unitPre d).unscalePrimalResIneq .denseRuiz v = pre.unscalePrimalResIneq .identity v := by
+  simp only [Precond.unscalePrimalResIneq, unitPre, if_true, reduceCtorEq, if_false]
+  apply Vector.ext; intro i hi
+  simp [Vec.const]
+theorem u_dualEq (v : Vec K p) : (unitPre d).unscaleDualEq .denseRuiz v = pre.unscaleDualEq .identity v := by
+  simp only [Precond.unscaleDualEq, unitPre, if_true, reduceCtorEq, if_false]
+  apply Vector.ext; intro i hi
+  simp [Vec.const]
+theorem u_dualIneq (v : Vec K m) : (unitPre d).unscaleDualIneq .denseRuiz v = pre.unscaleDualIneq .identity v := by
+  simp only [Precond.unscaleDualIneq, unitPre, if_true, reduceCtorEq, if_false]
+  apply Vector.ext; intro i hi
+  simp [Vec.const]
+theorem u_head (cnt : Nat) (v : Vec K n) (f : Fin n → K) (hf : ∀ i, f i = v[i]) : headMap cnt v f = v := by
+  apply Vector.ext; intro i hi
+  have := C15.headMap_get cnt v f ⟨i, hi⟩
+  simp only [Fin.getElem_fin] at this
+  rw [this]; split
+  · exact hf ⟨i, hi⟩
+  · rfl
+theorem u_resLb (v : Vec K n) : (unitPre d).unscalePrimalResLb .denseRuiz v = pre.unscalePrimalResLb .identity v := by
+  simp only [Precond.unscalePrimalResLb, unitPre, if_true, reduceCtorEq, if_false]
+  exact u_head _ _ _ (fun i => by simp [Vec.const])
+theorem u_resUb (v : Vec K n) : (unitPre d).unscalePrimalResUb .denseRuiz v = pre.unscalePrimalResUb .identity v := by
+  simp only [Precond.unscalePrimalResUb, unitPre, if_true, reduceCtorEq, if_false]
+  exact u_head _ _ _ (fun i => by simp [Vec.const])
+theorem u_dualLb (v : Vec K n) : (unitPre d).unscaleDualLb .denseRuiz v = pre.unscaleDualLb .identity v := by
+  simp only [Precond.unscaleDualLb, unitPre, if_true, reduceCtorEq, if_false]
+  exact u_head _ _ _ (fun i => by simp [Vec.const])
+theorem u_dualUb (v : Vec K n) : (unitPre d).unscaleDualUb .denseRuiz v = pre.unscaleDualUb .identity v := by
+  simp only [Precond.unscaleDualUb, unitPre, if_true, reduceCtorEq, if_false]
+  exact u_head _ _ _ (fun i => by simp [Vec.const])
+theorem u_slackIneq (v : Vec K m) : (unitPre d).unscaleSlackIneq .denseRuiz v = v := by
+  simp only [Precond.unscaleSlackIneq, unitPre, reduceCtorEq, if_false]
+  apply Vector.ext; intro i hi
+  simp [Vec.const]
+theorem u_slackLb (v : Vec K n) : (unitPre d).unscaleSlackLb .denseRuiz v = v := by
+  simp only [Precond.unscaleSlackLb, unitPre, reduceCtorEq, if_false]
+  exact u_head _ _ _ (fun i => by simp [Vec.const])
+theorem u_slackUb (v : Vec K n) : (unitPre d).unscaleSlackUb .denseRuiz v = v := by
+  simp only [Precond.unscaleSlackUb, unitPre, reduceCtorEq, if_false]
+  exact u_head _ _ _ (fun i => by simp [Vec.const])
+theorem id_primal (v : Vec K n) : pre.unscalePrimal .identity v = v := by simp [Precond.unscalePrimal]
+theorem id_dualEq (v : Vec K p) : pre.unscaleDualEq .identity v = v := by simp [Precond.unscaleDualEq]
+theorem id_dualIneq (v : Vec K m) : pre.unscaleDualIneq .identity v = v := by simp [Precond.unscaleDualIneq]
+theorem id_dualLb (v : Vec K n) : pre.unscaleDualLb .identity v = v := by simp [Precond.unscaleDualLb]
+theorem id_dualUb (v : Vec K n) : pre.unscaleDualUb .identity v = v := by simp [Precond.unscaleDualUb]
+
+omit d pre in
+theorem realOps_asRuiz (e : Env K n p m) (hk : e.pk = .identity) : realOps (asRuiz e) = realOps e := by
+  have e1 : ∀ w info, updateNrResiduals (asRuiz e) w info = updateNrResiduals e w info := by
+    intro w info
+    unfold updateNrResiduals
+    simp only [asRuiz, hk, u_cost e.data e.pre, u_dualRes e.data e.pre, u_resEq e.data e.pre, u_resIneq e.data e.pre,
+      u_resLb e.data e.pre, u_resUb e.data e.pre]
+  have e2 : ∀ ry rz rzl rzu, primalInfOf (asRuiz e) ry rz rzl rzu = primalInfOf e ry rz rzl rzu := by
+    intro ry rz rzl rzu
+    unfold primalInfOf
+    simp only [asRuiz, hk, u_resEq e.data e.pre, u_resIneq e.data e.pre, u_resLb e.data e.pre, u_resUb e.data e.pre]
+  have e3 : ∀ w, dualInfNr (asRuiz e) w = dualInfNr e w := by
+    intro w; unfold dualInfNr; simp only [asRuiz, hk, u_dualRes e.data e.pre]
+  have e4 : ∀ w, dualInfR (asRuiz e) w = dualInfR e w := by
+    intro w; unfold dualInfR; simp only [asRuiz, hk, u_dualRes e.data e.pre]
+  have e5 : ∀ w, primalProxInf (asRuiz e) w = primalProxInf e w := by
+    intro w; unfold primalProxInf
+    simp only [asRuiz, hk, u_dualEq e.data e.pre, u_dualIneq e.data e.pre, u_dualLb e.data e.pre, u_dualUb e.data e.pre]
+  have e6 : ∀ w, dualProxInf (asRuiz e) w = dualProxInf e w := by
+    intro w; unfold dualProxInf; simp only [asRuiz, hk, u_primal e.data e.pre]
+  have e7 : ∀ w, primalInfNr (asRuiz e) w = primalInfNr e w := fun w => e2 _ _ _ _
+  have e8 : ∀ w, primalInfR (asRuiz e) w = primalInfR e w := fun w => e2 _ _ _ _
+  have e9 : ∀ b w info, headInfo (asRuiz e) b w info = headInfo e b w info := by
+    intro b w info
+    unfold headInfo
+    simp only [e1, e7, e3]
+  have e10 : ∀ b k w info, stepNumOp (asRuiz e) b k w info = stepNumOp e b k w info := by
+    intro b k w info
+    unfold stepNumOp
+    simp only [e1, e7, e3, e5, e6]
+    rfl
+  unfold realOps
+  simp only [e9, e10, e5, e6, e8, e4]
+  rfl
+
+omit pre in
+theorem scaled_unit : Scaled d d (unitPre d) := by
+  refine { toApplied := applied_init d (unitPre d) rfl ?_ ?_ ?_ ?_ ?_, b := ?_, h := ?_, lbval := ?_, ubval := ?_, nlb := rfl, nub := rfl }
+  all_goals intro i
+  all_goals simp [unitPre, Vec.const]
+
+omit pre in
+theorem invFull_unit : InvFull (unitPre d) := by
+  refine ⟨?_, ?_, ?_, ?_, ?_, ?_⟩
+  all_goals simp [unitPre, Vec.const]
+
+omit d pre in
+theorem mainLoop_asRuiz (e : Env K n p m) (hk : e.pk = .identity) (ls : LoopState K n p m) : mainLoop (asRuiz e) ls = mainLoop e ls := by
+  unfold mainLoop
+  rw [realOps_asRuiz e hk]
+  rfl
+
+variable [IsStrictOrderedRing K]
+
+omit d pre in
+/-- **C01 for the identity preconditioner** (`DenseSolver<T, IdentityPreconditioner>` and the sparse analogue): SOLVED
+    certifies the stored — i.e. the user's — problem directly; obtained from `solved_certificate` by viewing the identity
+    preconditioner as a Ruiz preconditioner whose scalings are all 1 (`realOps_asRuiz`: the numeric operations coincide). -/
+theorem solved_certificate_identity (e : Env K n p m) (hk : e.pk = .identity) (ls : LoopState K n p m) (h0 : ls.c.iter = 0)
+    (hsolved : (mainLoop e ls).2 = Status.solved) :
+    let w := (mainLoop e ls).1.w
+    let info := (mainLoop e ls).1.info
+    (∀ i : Fin n, vabs (userDualRes e.data w.x w.y w.z w.z_lb w.z_ub i) < e.st.epsAbs + e.st.epsRel * info.dualRelInf) ∧
+    (∀ t : Fin p, vabs (e.data.b[t] - ∑ i : Fin n, e.data.AT[i][t] * w.x[i]) < e.st.epsAbs + e.st.epsRel * info.primalRelInf) ∧
+    (∀ t : Fin m, vabs (e.data.h[t] - (∑ i : Fin n, e.data.GT[i][t] * w.x[i]) - w.s[t]) < e.st.epsAbs + e.st.epsRel * info.primalRelInf) ∧
+    (∀ a : Fin n, a.val < e.data.lb.cnt →
+        vabs (e.data.lb.sc[a] * w.x[e.data.lb.idx[a]] + e.data.lb.val[a] - w.s_lb[a]) < e.st.epsAbs + e.st.epsRel * info.primalRelInf) ∧
+    (∀ a : Fin n, a.val < e.data.ub.cnt →
+        vabs (-e.data.ub.sc[a] * w.x[e.data.ub.idx[a]] + e.data.ub.val[a] - w.s_ub[a]) < e.st.epsAbs + e.st.epsRel * info.primalRelInf) ∧
+    (e.st.checkDualityGap = true → info.dualityGap < e.st.epsGapAbs + e.st.epsGapRel * info.dualityGapRel) ∧
+    info.primalObj = e.cs.c0_5 * userQuad e.data w.x + ∑ i : Fin n, e.data.c[i] * w.x[i] := by
+  have h := solved_certificate (asRuiz e) e.data (by simp [asRuiz]) (scaled_unit e.data) (invFull_unit e.data) ls h0
+    (by rw [mainLoop_asRuiz e hk]; exact hsolved)
+  rw [mainLoop_asRuiz e hk] at h
+  simp only [asRuiz, u_primal e.data e.pre, u_dualEq e.data e.pre, u_dualIneq e.data e.pre, u_dualLb e.data e.pre,
+    u_dualUb e.data e.pre, u_slackIneq, u_slackLb, u_slackUb, id_primal, id_dualEq, id_dualIneq, id_dualLb, id_dualUb] at h
+  exact h
+end identity
+end Piqp.C01
